@@ -163,7 +163,11 @@ def gen_cases(rng, tier):
         for evs in enumerate_schedules(rng, n, keys, dels, fires, budget):
             cases.append({"keys": [list(k) for k in KEYS], "events": evs})
     # an unknown kind is rejected at once
-    cases.append({"keys": [list(k) for k in KEYS], "events": [{"e": "invoke", "t": 0, "k": 0, "kind": 1}, {"e": "deliver", "rt": "cds", "up": [[0, 5]]}]})
+    # a kind the manager does not know (beyond the range, zero, negative, extreme values), alone and next to a real lookup
+    for j in range(8):
+        cases.append({"keys": [list(k) for k in KEYS], "events": [{"e": "invoke", "t": 0, "k": 0, "kind": 1, "kidx": j}, {"e": "deliver", "rt": "cds", "up": [[0, 5]]}]})
+        cases.append({"keys": [list(k) for k in KEYS], "events": [{"e": "invoke", "t": 1, "k": 0}, {"e": "invoke", "t": 0, "k": 0, "kind": 1, "kidx": j},
+                                                                  {"e": "deliver", "rt": "cds", "up": [[0, 5]]}, {"e": "wake", "t": 1}]})
     return cases
 
 
